@@ -753,6 +753,10 @@ class Job:
                 except Exception:
                     # Any exception means this method cannot exit early.
 
+                    # A handle opened by id whose state point cannot be loaded can
+                    # not (re-)create the job: fail before creating an empty directory.
+                    self.statepoint  # noqa: B018
+
                     # Create the workspace directory if it does not exist.
                     try:
                         _mkdir_p(self.path)
